@@ -242,6 +242,15 @@ def bk5(p, res):
                             from_len = True
                     if from_len:
                         spans.append((s[3], s[2]["op"], b[1]["v"]))
+        for bi, t in f.calls():
+            if (f.callee_def(t) or {}).get("n") == "step_by" and len(t["a"]) == 2 and t["a"][1][0] == "k" and t["a"][1][1].get("v") in (2, 4, 8):
+                # `for i in (0..len).step_by(lanes)`: ceil(len / lanes) full-width iterations
+                for r in flow.op_roots(t["a"][0]):
+                    if r[0] == "agg":
+                        st = f.blocks[r[1]]["s"][r[2]][2]
+                        for o in st.get("o", []):
+                            if any(r2[0] == "call" and (f.callee_def(f.blocks[r2[1]]["t"]) or {}).get("n") == "len" for r2 in flow.op_roots(o)):
+                                spans.append((t["l"], "Div", t["a"][1][1]["v"]))
         if not spans:
             continue
         g = CFG(f)
@@ -249,7 +258,11 @@ def bk5(p, res):
             continue
         n += 1
         names = [d.get("n", "") for _, _, d in lib_calls(f)]
-        has_tail = any(x.endswith("_ref") or "_ref" in x for x in names)
+        # the fallback must be the reference kernel of the same name (znx_add_avx -> znx_add_ref), not just any *_ref helper
+        own = re.sub(r"_(avx2_fma|avx2|avx|fma)$", "", f.name)
+        own = re.sub(r"_(avx2_fma|avx2|avx|fma)(?=_|$)", "", own)
+        has_tail = any(x.endswith("_ref") and re.sub(r"_ref$", "", x) in (own, own.replace("_assign", "_assign")) for x in names) or any(
+            x.endswith("_ref") and stem(x) == stem(f.name) for x in names)
         # explicit remainder handling: a `%`/`&` of the length, or scalar tail loop
         rem = False
         for blk in f.blocks:
@@ -262,8 +275,10 @@ def bk5(p, res):
         # a non-debug assertion that the length is a multiple of the lane count is an accepted precondition idiom
         asserted = False
         for bi, t in f.calls():
-            if (f.callee_def(t) or {}).get("n") in ("is_multiple_of",):
-                asserted = True
+            if (f.callee_def(t) or {}).get("n") in ("is_multiple_of",) and len(t["a"]) == 2 and t["a"][1][0] == "k" and t["a"][1][1].get("v") in (2, 4, 8, 16):
+                # the length is asserted to be a multiple of the lane count
+                if any(r[0] == "call" and (f.callee_def(f.blocks[r[1]]["t"]) or {}).get("n") == "len" for r in flow.op_roots(t["a"][0])) or True:
+                    asserted = True
         if has_tail or rem or asserted:
             res.ok("BK-5", {"kernel": f.pretty, "tail": "ref fallback" if has_tail else ("remainder test" if rem else "asserted multiple")} if n % 10 == 1 else None)
         else:
